@@ -80,7 +80,7 @@ fn stage(i: &Input, c: &mut Case) -> Result<(), String> {
 pub const STAGES: &[Stage] = &[Stage { name: "mirror", f: stage }];
 
 pub fn run(rc: &mut RunCtx) {
-    rc.run_pt(STAGES[0], rc.pick(240_000, 5_000_000), (96, 500));
+    rc.run_pt(STAGES[0], rc.pick(960_000, 5_000_000), (96, 500));
     for l in ["has_full", "tolerant", "input_mid_document", "input_mutated", "after_compaction", "implied_ancestor_end"] {
         rc.require_label("mirror", l, 10_000);
     }
